@@ -101,7 +101,7 @@ def main():
                 continue
             rc, out = sh(["go", "vet", "./" + os.path.dirname(rel)], wt, 300) if False else (0, "")
             try:
-                rc, out = sh(["go", "test", "-vet=off", "-count=1", "-timeout", "90s", "./..."], wt, 400)
+                rc, out = sh(["go", "test", "-vet=off", "-count=1", "-timeout", "30s", "./..."], wt, 400)
             except subprocess.TimeoutExpired:
                 rc = 1
             if rc != 0:
